@@ -1,6 +1,7 @@
 //! Semantics-free harness: renders abstract cases, runs the real nitrogql code,
 //! and re-encodes what it observed as ndjson events for the TLA+ trace specs.
 //! A panic in the code under test is data (an event), never a harness failure.
+mod checkops;
 mod cli;
 mod debug;
 mod determ;
@@ -34,6 +35,7 @@ fn main() {
     let rest = &args[2..];
     let rc = match args[1].as_str() {
         "paths" => paths::run(rest),
+        "checkops" => checkops::run(rest),
         "cliproj" => cli::run(rest),
         "debug" => debug::run(rest),
         "determ" => determ::run(rest),
